@@ -108,4 +108,27 @@ def handBack (controls : List (Nat × Nat)) (captured : List Var) : List Slot :=
   controls.reverse.map (fun c => Slot.ctrl c.1 c.2) ++
     ((order captured).filter (·.inout)).map Slot.cap
 
+/-! ### Individual control qubits (element level)
+
+A `control(c₁, …, cₙ)` item over individual qubits packs them into one array before the call and
+unpacks the returned array after it.  Wires are identified by the variable they were taken from. -/
+
+/-- `array_new(Qubit, n)(*cs)`: element `i` of the packed array is the wire of the `i`-th listed
+    control variable -/
+def packCtrl (vars : List Nat) : List Nat := vars
+
+/-- `unpacked = unpack_array(…)`, then `for c, new_c in zip(control.ctrl, unpacked): dfg[c.place] = new_c`:
+    (variable, wire it names after the block) -/
+def unpackAssign (vars unpacked : List Nat) : List (Nat × Nat) := vars.zip unpacked
+
+/-- the variant `for c in control.ctrl: dfg[c.place] = unpacked.pop()` (takes from the end) — not the
+    code, kept to state what goes wrong (seeded change C25/m6) -/
+def unpackAssignPop (vars unpacked : List Nat) : List (Nat × Nat) := vars.zip unpacked.reverse
+
+/-- what every control of a block hands back, in the order of the call outputs (last control
+    first): for each control the list of (variable, wire it names afterwards).  The modified function
+    returns every control array element-wise in place (assumed semantics of `ControlModifier`). -/
+def handBackElems (controls : List (List Nat)) : List (List (Nat × Nat)) :=
+  controls.reverse.map (fun vars => unpackAssign vars (packCtrl vars))
+
 end GuppyVerif.Modifier
